@@ -231,7 +231,9 @@ namespace detail
 	{
 		GLM_STATIC_ASSERT(std::numeric_limits<genIUType>::is_integer, "'mask' accepts only integer values");
 
-		return Bits >= static_cast<genIUType>(sizeof(genIUType) * 8) ? ~static_cast<genIUType>(0) : (static_cast<genIUType>(1) << Bits) - static_cast<genIUType>(1);
+		// (1 << Bits) - 1 is formed in the unsigned counterpart: for a signed type and Bits = width - 1 it overflows
+		typedef typename detail::make_unsigned<genIUType>::type UType;
+		return Bits >= static_cast<genIUType>(sizeof(genIUType) * 8) ? ~static_cast<genIUType>(0) : static_cast<genIUType>((static_cast<UType>(1) << Bits) - static_cast<UType>(1));
 	}
 
 #if GLM_COMPILER & GLM_COMPILER_CLANG
